@@ -119,10 +119,11 @@ func (c *Ctx) isFlagStore(in ssa.Instruction, val bool) bool {
 
 func runC03(c *Ctx) {
 	r, a := c.R, c.A
-	r.Rule("R1", "single ordered producer: sends on the inbound queue occur only in the receive goroutine's own body (not in a go/closure), which is spawned once outside loops and frames lines with bufio ReadString/ReadBytes('\\n') on the connection reader")
+	r.Rule("R1", "single ordered producer: sends on the inbound queue occur only in the receive goroutine's own body (not in a go/closure), which is spawned once outside loops and frames lines with bufio ReadString/ReadBytes('\\n') on the connection reader and hands each accepted line over with a blocking send before it reads the next")
 	r.Rule("R2", "single ordered consumer: receives from the inbound queue occur only in one member goroutine (dispatching; one spawn site outside loops) and in discard-only drain code started by the teardown after the connected flag is cleared")
 	r.Rule("R3", "awaited chain: from the consumer's receive to every handler invocation through the internal and foreground sets every edge is a call, a defer or a joined go; every call of Conn.dispatch with a received line is a plain call in the consumer")
 	r.Rule("R4", "CONNECTED is dispatched only from the internal 001 handler, awaited, as a defer or after every tracker call / Config.Me store of that handler")
+	r.Rule("R6", "event loops of successive connections never overlap: the teardown waits for the connection goroutines (Wait on the connection WaitGroup) while holding the connection mutex exclusively, and every go statement that starts a member goroutine runs with that mutex held exclusively, so a reconnect cannot start a second loop while the old one is still inside a handler")
 	r.Rule("R5", "DISCONNECTED is dispatched only in the teardown, dominated by Wait on the connection WaitGroup; the consumer is a member and dispatches nothing after its Done")
 
 	// ---- R1
@@ -190,6 +191,7 @@ func runC03(c *Ctx) {
 		})
 		r.Floor("R1", "delimiter-framed read in the producer", nGood, 1)
 		// send must be in same function as framing read: guaranteed by producer identity above.
+		c.handoverRule("R1", producer)
 	}
 
 	// ---- R2
@@ -335,6 +337,7 @@ func runC03(c *Ctx) {
 		}
 	}
 	r.Floor("R5", "dispatch of DISCONNECTED", nDis, 1)
+	c.loopExclusionRule("R6")
 	if consumer != nil {
 		// after Done no dispatch reachable
 		bad := ""
@@ -480,4 +483,45 @@ func (c *Ctx) connDispatchRule(rule string, consumer *ssa.Function, recvs []Chan
 		r.Add(rule, "conn-dispatch:"+c.FuncKey(fn)+":"+kindName(cs), c.InstrPos(cs), c.FuncKey(fn), "a server line is dispatched only by a plain call in the consumer goroutine", ok, why)
 	}
 	r.Floor(rule, "dispatch of the received line in the consumer", nRecvDispatch, 1)
+}
+
+// loopExclusionRule: Wait on the connection WaitGroup and the member spawns
+// are mutually exclusive through the connection mutex.
+func (c *Ctx) loopExclusionRule(rule string) {
+	r, a := c.R, c.A
+	if !r.Anchor(rule, "connection mutex and WaitGroup fields", a.Mu != nil && a.WG != nil) {
+		return
+	}
+	var funcs []*ssa.Function
+	for _, f := range c.ModFuncs {
+		if f.Package() == c.Client {
+			funcs = append(funcs, f)
+		}
+	}
+	ls := c.ComputeLocksets(funcs)
+	lock := "client.Conn." + a.Mu.Name()
+	nWait, nSpawn := 0, 0
+	for _, fn := range funcs {
+		if ls.Dead[fn] {
+			continue
+		}
+		funcInstrs(fn, func(in ssa.Instruction) {
+			if c.isWGCall(in, a.WG, "Wait") {
+				nWait++
+				held := ls.Held(in, lock)
+				r.Add(rule, "wait-locked:"+c.FuncKey(fn), c.InstrPos(in), c.FuncKey(fn), "the wait for the connection goroutines holds the connection mutex exclusively", held == 'W', fmt.Sprintf("lockset=%s", ls.At[in]))
+			}
+			if g, ok := in.(*ssa.Go); ok {
+				for _, e := range c.Callees(g) {
+					if e.Callee != nil && a.IsMember(e.Callee) {
+						nSpawn++
+						held := ls.Held(in, lock)
+						r.Add(rule, "spawn-locked:"+c.FuncKey(e.Callee), c.InstrPos(in), c.FuncKey(fn), "member goroutine "+c.FuncKey(e.Callee)+" is started with the connection mutex held exclusively", held == 'W', fmt.Sprintf("lockset=%s", ls.At[in]))
+					}
+				}
+			}
+		})
+	}
+	r.Floor(rule, "Wait sites on the connection WaitGroup", nWait, 1)
+	r.Floor(rule, "member spawn sites", nSpawn, 3)
 }
